@@ -121,6 +121,27 @@ Definition erase_lookups (h : list cop) : list cop := filter cis_mutation h.
 (* every registry forgets what it cached (and what it subscribed to) *)
 Definition drop_caches (s : sys) : sys := map (fun x => set_caches x empty_caches) s.
 
+(* what a lookup-family operation answers when nothing is cached: the entry point run on empty
+   caches over the registries [ch r] *)
+Definition pure_answer (W : world) (call : value -> list nat -> option nat) (ch : nat -> list reg)
+           (q : rop) : list nat :=
+  match q with
+  | QLookup r req p n => enc_res_value (snd (lookup (uncached_lookup W (ch r)) empty_caches req p n))
+  | QLookup1 r req p n => enc_res_value (snd (lookup1 (uncached_lookup W (ch r)) empty_caches req p n))
+  | QLookupAll r req p => enc_pairs (snd (lookupAll (uncached_lookupAll W (ch r)) empty_caches req p))
+  | QNames r req p => enc_names (snd (names (uncached_lookupAll W (ch r)) empty_caches req p))
+  | QSubscriptions r req p => map vid (snd (subscriptions (uncached_subscriptions W (ch r)) empty_caches req p))
+  | QQueryAdapter r o p n | QAdapterHook r o p n =>
+      enc_res_nat (snd (adapter_hook (uncached_lookup W (ch r)) call empty_caches p o n))
+  | QQueryMultiAdapter r os p n =>
+      enc_res_nat (snd (queryMultiAdapter (uncached_lookup W (ch r)) call empty_caches os p n))
+  | QSubscribers r os p =>
+      let a := snd (subscribers (uncached_subscriptions W (ch r)) call empty_caches os p) in
+      fst a ++ [999999] ++ map vid (snd a)
+  | _ => []
+  end.
+
+
 (* ---- well-formed histories: those of Spec/RegChain.v (one flavour [fl]; registries are named
    after their creation; bases come earlier in creation order, so the registry graph is acyclic;
    no rebuild(), which re-runs __init__ and forgets the sub-registries of a push registry);
